@@ -129,6 +129,50 @@ def run(ctx):
         for w in sorted(extra24):
             ctx.check(w in table, "R3.1", b.loc(), f"escape|2024|{w}", f"`{w}` is reserved in edition 2024 and not escaped", instance=f"`{w}` (2024) escaped", nontrivial=False)
         ctx.ok("R3.1", b.loc(), f"escape table has {len(table)} words, compiler reports {len(need)} (+{len(extra24)} in 2024)")
+        # ... and the lookup itself: the escape function evaluated on every reserved word (and on a few ordinary names) — a table that
+        # lists a word but is searched in a way that misses it (a binary search over an unsorted table) escapes nothing
+        from .. import minterp as _mi
+        sidx = [k for k in range(1, b.argc + 1) if tystr(b.local_ty(k)) in ("&str", "&alloc::string::String")]
+        if len(sidx) == 1 and tystr(b.local_ty(0)) == "alloc::string::String":
+            wrong, unsup = [], None
+            for w in sorted(need) + ["name", "types", "final_value", "fn_", "a"]:
+                cell = {"s": None}
+
+                def oracle(f, argv, cell=cell):
+                    nm, dd = f.get("name"), f.get("def", "")
+                    if nm in ("to_snake_case", "to_string", "to_owned", "into", "from") and argv and isinstance(argv[0], str) and cell["s"] is None:
+                        cell["s"] = argv[0]
+                        return ("strcell",)
+                    if argv and argv[0] == ("strcell",):
+                        if nm in ("deref", "as_str", "as_ref", "borrow", "deref_mut", "clone"):
+                            return cell["s"]
+                        if nm == "push" and len(argv) == 2 and isinstance(argv[1], int):
+                            cell["s"] += chr(argv[1])
+                            return ("tuple", [])
+                        if nm == "push_str" and len(argv) == 2 and isinstance(argv[1], str):
+                            cell["s"] += argv[1]
+                            return ("tuple", [])
+                        if nm in ("len", "is_empty"):
+                            return len(cell["s"]) if nm == "len" else not cell["s"]
+                    return _mi.NO_VALUE
+                I_ = _mi.Interp(F, c, inline=lambda d_, rid: rid.startswith("conjure_codegen::context::"), max_depth=3)
+                I_.call_oracle = oracle
+                args_ = [("sym", f"a{k}") for k in range(1, b.argc + 1)]
+                args_[sidx[0] - 1] = w
+                try:
+                    r_ = I_.run(b, args_)
+                except _mi.Unsupported as e_:
+                    unsup = str(e_)
+                    break
+                out_ = cell["s"] if r_ == ("strcell",) else r_
+                want_ = w + "_" if w in need else w
+                if out_ != want_:
+                    wrong.append(f"{w!r} -> {out_!r:.30}")
+            if unsup is not None:
+                ctx.note(f"R3.1 {b.name}: the escape function is not evaluable on concrete names ({unsup}); decided on the table's contents only")
+            else:
+                ctx.check(not wrong, "R3.1", b.loc(), "escape|evaluated", f"{b.name}: reserved words must come back with an underscore appended and other names unchanged: " + "; ".join(wrong[:6]),
+                          instance=f"{b.name}: evaluated on {len(need)} reserved words and 5 ordinary names")
         # escaping appends a suffix on the positive branch: the keyword flag leads to a push / format
         # camel-case sibling
     camel = []
